@@ -28,6 +28,9 @@ inductive Call
   | endBlock (h : Nat)
   | commit
   | restart
+  /-- the application's data was replaced by an older snapshot of itself, taken at height `h`
+  (written by the operator/application, not by Tendermint) -/
+  | restored (h : Nat)
   deriving DecidableEq, Repr, Inhabited
 
 /-- open block execution of the application: header height, txs delivered so far, EndBlock seen -/
@@ -53,6 +56,11 @@ structure Disk where
   /-- privval: height of the last vote this validator signed; the vote's WAL record is written
   (fsynced) with it — the fail point of the receive routine sits after that write -/
   pvH : Nat := 0
+  /-- how many of its two round-0 votes (prevote, precommit) of height `pvH` are signed and logged -/
+  pvVotes : Nat := 0
+  /-- privval: the last step signed at height `pvH` (1 = prevote, 2 = precommit); it can be ahead
+  of the WAL when the process dies between signing and logging -/
+  pvStep : Nat := 0
   /-- the genesis state has been completed and saved by the first handshake (InitChain response
   applied, `LastResultsHash` set to the empty-tree hash); block 1 validates only against that -/
   genesisSaved : Bool := false
@@ -63,8 +71,13 @@ structure Disk where
 this height) and the txs of the block at each height (validator updates, parameter changes are part
 of the opaque block content) -/
 structure Chain where
-  ih : Nat := 1
+  /-- `InitialHeight - 1` (so that the initial height is ≥ 1 by construction, as
+  `GenesisDoc.ValidateAndComplete` guarantees) -/
+  ihPred : Nat := 0
   txs : Nat → List Tx
+
+/-- the genesis `InitialHeight` -/
+def Chain.ih (c : Chain) : Nat := c.ihPred + 1
 
 instance : CoeFun Chain (fun _ => Nat → List Tx) := ⟨Chain.txs⟩
 
@@ -91,13 +104,26 @@ def App.call (a : App) (k : Call) : App :=
     | some p => { a with height := p.h, hash := a.hash ++ [(p.h, p.txs)], pending := none }
     | none => { a with height := a.height + 1, hash := a.hash ++ [(0, [a.height + 1])], pending := none }
   | .restart => { a with pending := none }
+  | .restored _ => { a with pending := none }
+
+/-- height reported by an application whose committed history is `hs` -/
+def reportedHeight (hs : Hist) : Nat :=
+  match hs.getLast? with
+  | some e => if e.1 = 0 then e.2.headD 0 else e.1
+  | none => 0
+
+/-- the application comes back (in a new process) with a snapshot of itself `j` commits older -/
+def App.restore (a : App) (j : Nat) : App :=
+  let hs := a.hash.take (a.hash.length - j)
+  { (a.call (.restored (reportedHeight hs))) with height := reportedHeight hs, hash := hs }
 
 /-! ## effects -/
 
 inductive Eff
   | initChain                 -- InitChainSync on the consensus connection
   | saveGenesis               -- stateStore.Save(state) at height 0 after InitChain
-  | signVote (h : Nat)        -- own vote of height h signed (privval state) and logged (WAL WriteSync)
+  | signVote (h : Nat) (v : Nat)  -- own vote (v = 1 prevote, 2 precommit) of height h signed (privval state) and logged (WAL WriteSync)
+  | pvSign (h : Nat) (v : Nat)    -- privval signs vote v of height h while the WAL is being replayed (logged later, or never)
   | saveBlock (h : Nat)       -- blockStore.SaveBlock
   | walEnd (h : Nat)          -- wal.WriteSync(EndHeightMessage{h})
   | begin (h : Nat)
@@ -111,7 +137,11 @@ inductive Eff
 def applyEff (d : Disk) : Eff → Disk
   | .initChain => { d with app := d.app.call .initChain }
   | .saveGenesis => { d with genesisSaved := true }
-  | .signVote h => { d with pvH := h }
+  | .signVote h v =>
+    if d.pvH = h then { d with pvVotes := max d.pvVotes v, pvStep := max d.pvStep v }
+    else { d with pvH := h, pvVotes := v, pvStep := v }
+  | .pvSign h v =>
+    if d.pvH = h then { d with pvStep := max d.pvStep v } else { d with pvH := h, pvVotes := 0, pvStep := v }
   | .saveBlock h => { d with storeH := h }
   | .walEnd h => { d with walEnd := h }
   | .begin h => { d with app := d.app.call (.begin h) }
@@ -147,12 +177,14 @@ def applyBlockMock (h : Nat) : List Eff := [.saveResp h, .saveState h]
 /-- `sm.ExecCommitBlock` -/
 def execCommit (c : Chain) (h : Nat) : List Eff := execEffs c h ++ [.appCommit]
 
-/-- deciding height `h` on a running node: the validator signs (and logs) its votes, then
+/-- deciding height `h` on a running node: the validator signs (and logs) its prevote and its
+precommit (a node that replayed some of them from the WAL after a restart signs only the rest; the
+pipeline position is the same), then
 `finalizeCommit(h)`: SaveBlock (unless stored), #ENDHEIGHT, ApplyBlock.
 `none` = the `ValidateBlock` panic before anything is written. -/
 def finalizeEffs (c : Chain) (d : Disk) (h : Nat) : Option (List Eff) :=
   if validBlock c d h then
-    some ([.signVote h] ++ (if d.storeH < h then [.saveBlock h] else []) ++ [.walEnd h] ++ applyBlockReal c h)
+    some ([.signVote h 1, .signVote h 2] ++ (if d.storeH < h then [.saveBlock h] else []) ++ [.walEnd h] ++ applyBlockReal c h)
   else none
 
 /-! ## handshake -/
@@ -266,6 +298,9 @@ inductive Op
   | start (crashAt : Option Nat)
   /-- `finalizeCommit` of the next height on a running node -/
   | commit (crashAt : Option Nat)
+  /-- the node is stopped and the application's data is replaced by an older snapshot of itself
+  (`j` commits back); Tendermint's own stores are untouched -/
+  | rollback (j : Nat)
   deriving Repr
 
 /-- run a program with an optional crash point; `some k` with `k ≥ length` = dies after the last
@@ -308,11 +343,102 @@ def stepSys (c : Chain) (s : Sys) : Op → Sys
         ⟨d, completed, completed⟩
       | none => ⟨crash s.disk, false, false⟩
     else s
+  | .rollback j => ⟨{ s.disk with app := s.disk.app.restore j }, false, false⟩
 
 def runSys (c : Chain) (s : Sys) (ops : List Op) : Sys := ops.foldl (stepSys c) s
 
 /-- the fresh node: empty stores, application at height 0, not yet started -/
 def genesis : Sys := {}
+
+/-! ## fail points: one process incarnation as effects interleaved with the `fail.Fail()` call
+sites of the code (state/execution.go ApplyBlock: after exec, after SaveABCIResponses, after Commit,
+after Save; consensus/state.go finalizeCommit: at entry, after SaveBlock, after the #ENDHEIGHT
+write, after ApplyBlock, after updateToState; receiveRoutine: after an own vote was logged).
+`FAIL_TEST_INDEX = i` kills the process at the (i+1)-th call. -/
+
+inductive Item
+  | eff (e : Eff)
+  | fail
+  deriving Repr
+
+def planApplyReal (c : Chain) (h : Nat) : List Item :=
+  (execEffs c h).map .eff ++
+    [.fail, .eff (.saveResp h), .fail, .eff .appCommit, .fail, .eff (.saveState h), .fail]
+
+/-- `ApplyBlock` on the mock application: same call sites, the application's effects missing -/
+def planApplyMock (h : Nat) : List Item :=
+  [.fail, .eff (.saveResp h), .fail, .fail, .eff (.saveState h), .fail]
+
+/-- the (re)start: handshake (fail points only inside `ApplyBlock`, i.e. in the real/mock replay of
+the last block; `ExecCommitBlock` has none), then the marker write of `catchupReplay` -/
+def planStart (c : Chain) (d : Disk) : List Item :=
+  let r := handshake c d
+  if r.outcome = .ok then
+    let pre : List Eff :=
+      if d.app.height = 0 then [.initChain] ++ (if d.stateH = 0 then [.saveGenesis] else []) else []
+    let hs : List Item := match r.branch with
+      | .lastReal => pre.map .eff ++ planApplyReal c d.storeH
+      | .lastMock => pre.map .eff ++ planApplyMock d.storeH
+      | .replayMutate =>
+        (r.effs.take (r.effs.length - (applyBlockReal c d.storeH).length)).map .eff ++ planApplyReal c d.storeH
+      | _ => r.effs.map .eff
+    let d' := applyEffs d r.effs
+    hs ++ (if d'.walEnd ≠ d'.stateH then [.eff (.walEnd d'.stateH)] else [])
+  else r.effs.map .eff
+
+/-- deciding height `h` in this incarnation. `w` = how many of the own votes of `h` are in the WAL
+(replayed by `catchupReplay`), `s` = the last step the privval signed at `h`.
+* `w = 2`: the replay reaches `finalizeCommit` while still replaying; of the votes the node tries to
+  sign again, the prevote is refused by the privval (step regression) and the precommit is returned
+  with its old signature and queued: it passes the receive routine's fail point afterwards, stale.
+* `w = 1`: the prevote is signed again only if the privval has not yet signed the precommit
+  (`s = 1`); the replayed prevote makes the node sign its precommit while replaying; what was
+  queued then goes through the receive routine (WAL write, fail point) before the commit.
+* `w = 0`: a fresh height. -/
+def planHeight (c : Chain) (storeH : Nat) (w s : Nat) (h : Nat) : List Item :=
+  let fin : List Item :=
+    [.fail] ++ (if storeH < h then [.eff (.saveBlock h)] else []) ++ [.fail, .eff (.walEnd h), .fail] ++
+    planApplyReal c h ++ [.fail, .fail]
+  match w with
+  | 0 => [.eff (.signVote h 1), .fail, .eff (.signVote h 2), .fail] ++ fin
+  | 1 => [.eff (.pvSign h 2)] ++ (if s ≤ 1 then [.eff (.signVote h 1), .fail] else []) ++
+          [.eff (.signVote h 2), .fail] ++ fin
+  | _ => fin ++ [.fail]
+
+/-- run items until the `(i+1)`-th fail point (`failAt = some i`) or until BeginBlock of `exitH`
+would be sent (the test application stops the process there); returns the disk at death, whether
+the handshake part (the first `nHs` items) was completed, and whether it was the clean stop -/
+def runItems (exitH : Nat) : List Item → Disk → Option Nat → Nat → Nat → Disk × Nat × Bool
+  | [], d, _, _, done => (d, done, false)
+  | .fail :: rest, d, some 0, _, done => (d, done, false)
+  | .fail :: rest, d, some (i + 1), nHs, done => runItems exitH rest d (some i) nHs (done + 1)
+  | .fail :: rest, d, none, nHs, done => runItems exitH rest d none nHs (done + 1)
+  | .eff e :: rest, d, f, nHs, done =>
+    if e = .begin exitH then (d, done, true)
+    else runItems exitH rest (applyEff d e) f nHs (done + 1)
+
+/-- one incarnation of the node under `FAIL_TEST_INDEX = failAt`, deciding heights until the
+application's clean stop at BeginBlock `exitH`: the disk it leaves (before the restart marker), the
+disk right after its handshake if that completed, and whether it stopped cleanly -/
+def incarnation (c : Chain) (d : Disk) (failAt : Option Nat) (exitH : Nat) (maxHeights : Nat) :
+    Disk × Option Disk × Bool :=
+  let r := handshake c d
+  let hsItems : List Item := (planStart c d).take ((planStart c d).length -
+    (if r.outcome = .ok ∧ (applyEffs d r.effs).walEnd ≠ (applyEffs d r.effs).stateH then 1 else 0))
+  let dHs := applyEffs d r.effs
+  let dSt := applyEffs d (startEffs c d)
+  let h0 := nxt c dSt.stateH
+  let hadMarker := decide (dHs.walEnd = dHs.stateH)
+  let w := if dSt.pvH = h0 ∧ hadMarker then dSt.pvVotes else 0
+  let sgn := if dSt.pvH = h0 then dSt.pvStep else 0
+  -- heights decided by this incarnation (the store only matters for the first one)
+  let heights : List Item :=
+    (List.range maxHeights).foldl (fun acc i =>
+      let h := (List.range i).foldl (fun x _ => nxt c x) h0
+      acc ++ planHeight c (if i = 0 then dSt.storeH else 0) (if i = 0 then w else 0) (if i = 0 then sgn else 0) h) []
+  let items := planStart c d ++ heights
+  let (dEnd, done, clean) := runItems exitH items d failAt hsItems.length 0
+  (dEnd, if done ≥ hsItems.length ∧ r.outcome = .ok then some dHs else none, clean)
 
 /-! ## the journal grammar (the property's reading of the call journal) -/
 
@@ -322,8 +448,9 @@ structure JState where
   opn : Option Pending
   deriving DecidableEq, Repr
 
-/-- one call; `none` = the journal is ill-formed at this call. InitChain only while nothing is
-committed; Begin only for the next height and only when no execution is open (an execution
+/-- one call; `none` = the journal is ill-formed at this call. `committed` is the height the
+application reports (its last commit, or the snapshot it was restored from). InitChain only while
+nothing is committed; Begin only for the next height and only when no execution is open (an execution
 abandoned by a process death is closed by the restart marker); txs in block order; End only after
 all txs; Commit only after End. -/
 def jstep (c : Chain) (s : JState) : Call → Option JState
@@ -345,6 +472,7 @@ def jstep (c : Chain) (s : JState) : Call → Option JState
     | some p => if p.ended then some { committed := p.h, opn := none } else none
     | none => none
   | .restart => some { s with opn := none }
+  | .restored h => some { committed := h, opn := none }
 
 def jrun (c : Chain) : JState → List Call → Option JState
   | s, [] => some s
